@@ -157,13 +157,15 @@ int main(int argc, char **argv) {
         else { o.tags |= 1ull << T_REJECT; if(rc != -1) o.fail("C02/api/undefined-return", "opn2_openBankData returned " + std::to_string(rc)); const char *e = opn2_errorInfo(I.dev); if(!e || !*e) o.fail("C02/api/empty-error-text", "rejected bank left an empty error text"); } };
       fams.push_back(F); }
     { uint64_t tot = 0; for(int f = 0; f < 36; f++) tot += frange(f);
-      en::Family F; F.name = "instrument_fields"; F.count = tot * 3; F.chunk = 256; F.budget_s = 3; F.describe = "opn2_setInstrument: each of the 36 instrument fields over its full range (16-bit: 65536, bytes: 256) one at a time x 3 base instruments; then keys {0,60,127} x bends {0,8191,16383} x bend range {2,24,127.99} on a melodic and a percussion channel (all 5 volume models x 4 brightness values for the byte fields)";
-      F.run = [tot](uint64_t i, en::CaseOut &o) { uint64_t r = i % tot; int base = (int)(i / tot); int f = 0; while(r >= frange(f)) { r -= frange(f); f++; }
+      en::Family F; F.name = "instrument_fields"; F.count = tot * 3 + 65536 * 3; F.chunk = 256; F.budget_s = 3; F.describe = "opn2_setInstrument: each of the 36 instrument fields over its full range (16-bit: 65536, bytes: 256) one at a time x 3 base instruments (the note offset also under the OPNA chip family); then keys {0,60,127} x bends {0,8191,16383} x bend range {2,24,127.99} on a melodic and a percussion channel (all 5 volume models x 4 brightness values for the byte fields)";
+      F.run = [tot](uint64_t i, en::CaseOut &o) { bool opna = i >= tot * 3;   // the last 3 x 65536 indices: the note offset once more with the OPNA chip family (its own tone-to-frequency constants)
+        uint64_t r = opna ? (i - tot * 3) % 65536 : i % tot; int base = opna ? (int)((i - tot * 3) / 65536) : (int)(i / tot); int f = 0; if(!opna) while(r >= frange(f)) { r -= frange(f); f++; }
         OPN2_Instrument ins = base_ins(base); set_field(ins, f, (uint32_t)r);
         if(r == 0) o.sample = std::string(fname(f)) + " (#" + std::to_string(f) + ") := 0.." + std::to_string(frange(f) - 1) + " on base instrument " + std::to_string(base);
         o.input_hex = std::string(fname(f)) + "=" + std::to_string(r);
         pl::Instance I; I.create(44100); opn2_setNumChips(I.dev, 1);
         if(!put_instrument(I, ins)) { o.fail("C02/setInstrument-failed", "setInstrument refused a version-0 instrument"); return; }
+        if(opna) { opn2_setChipType(I.dev, OPNMIDI_ChipType_OPNA); o.input_hex += " (OPNA family)"; if(!put_instrument(I, ins)) { o.fail("C02/setInstrument-failed", "setInstrument refused the instrument after the chip type change"); return; } }
         o.nontrivial = true;
         play_matrix(I, frange(f) == 256, o); };
       fams.push_back(F); }
